@@ -12,7 +12,7 @@ from typing import Any, Dict, List, Tuple
 from icv import tlc
 from icv.result import CheckResult, MachineryError
 
-KINDS = ["int", "str", "list", "strset", "cls", "func", "method", "mod", "modsub", "builtin"]
+KINDS = ["int", "str", "list", "strset", "cls", "func", "method", "mod", "modsub", "builtin", "mwrapper"]
 
 
 def gen_cases(tier: str, rng: random.Random) -> List[dict]:
